@@ -206,6 +206,14 @@ func (r *msetRequest) Split() []*simpleRequest {
 func (r *msetRequest) onChildDone(simpleReq *simpleRequest) {
 	wait := r.childWait.Dec()
 	if wait == 0 {
+		// a key whose SET failed (backend unreachable, error reply) was not
+		// written, do not tell the client that everything went fine.
+		for _, child := range r.children {
+			if resp := child.Response(); resp != nil && resp.Type == Error {
+				r.raw.SetResponse(resp)
+				return
+			}
+		}
 		r.raw.SetResponse(respOK)
 	}
 }
